@@ -67,7 +67,7 @@ Section Total.
   Variable m : Z -> Q.
   Variable rnd : Q -> Q.
   Variable keys : Z -> Z -> list Z.
-  Variable fmt : Z -> str.
+  Variable fmt : Z -> Z -> Z -> str.
   Hypothesis m_mono : forall a b, (a <= b)%Z -> (m a <= m b)%Q.
   Hypothesis rnd_mono : forall x y, (x <= y)%Q -> (rnd x <= rnd y)%Q.
   Hypothesis rnd_0 : (rnd 0 == 0)%Q.
